@@ -105,11 +105,18 @@ def octets(big: bool = False) -> st.SearchStrategy[bytes]:
 NORMALISATION_SENSITIVE = ["e\u0301", "\u212b", "\uf900", "\u0958", "\u1100\u1161", "\u1e9b\u0323", "\ufb01", "\u00df", "\u0130", "\u01c5",
                            "\u0663", "\uff11", "\u0e52", "\u00b2", "\u2160", "\u00aa", "\u0301", "\u200d", "\ufeff", "\u2028"]
 
+# code points at the edges of the classes that text-handling code distinguishes: ASCII / Latin-1 / UTF-8 length classes,
+# C0/C1 controls and the separators only str.isspace() knows, the surrogate block's neighbours, noncharacters, planes
+BOUNDARY_CHARS = [chr(c) for c in (0x00, 0x0B, 0x1C, 0x1F, 0x20, 0x5B, 0x5C, 0x5D, 0x60, 0x7B, 0x7E, 0x7F, 0x80, 0x85, 0x9F, 0xA0, 0xAD, 0xFF, 0x100,
+                                   0x130, 0x131, 0x17F, 0x212A, 0x7FF, 0x800, 0xFFF, 0x1000, 0x2028, 0x2029, 0x3000, 0xD7FF, 0xE000, 0xF8FF,
+                                   0xFEFF, 0xFF21, 0xFFFD, 0xFFFE, 0xFFFF, 0x10000, 0x1FFFF, 0xE0001, 0x10FFFF)]
+
 NORMALISATION_CHARS = sorted({c for x in NORMALISATION_SENSITIVE for c in x if ord(c) > 127})
 
 _TEXT_ALPHA = st.one_of(
     st.characters(exclude_categories=["Cs"]),
     st.sampled_from(NORMALISATION_CHARS),
+    st.sampled_from(BOUNDARY_CHARS),
     st.sampled_from(list("abcdefgXYZ0123456789 =,.-_()*\\'\"\x00\n\t\x7fé€\U0001f600")),
 )
 
